@@ -43,6 +43,7 @@ trait Fb<C: Col>: DrawTarget<Color = C, Error = Infallible> + GetPixel<Color = C
     const N: usize;
     const ALT: bool;
     fn make() -> Self;
+    fn clone_fb(&self) -> Self;
     fn set_px(&mut self, p: Point, c: C);
     fn bytes(&self) -> &[u8];
     fn bytes_mut(&mut self) -> &mut [u8];
@@ -59,6 +60,9 @@ macro_rules! fb_impl {
             const ALT: bool = <$o as DataOrder>::IS_ALTERNATE_ORDER;
             fn make() -> Self {
                 Self::new()
+            }
+            fn clone_fb(&self) -> Self {
+                self.clone()
             }
             fn set_px(&mut self, p: Point, c: $c) {
                 self.set_pixel(p, c)
@@ -158,6 +162,14 @@ where
     let mut trace: Vec<String> = Vec::new();
     let mut wrote_inside = 0u64;
     for _ in 0..n_ops {
+        // now and then the history continues on a clone of the framebuffer (and the original is
+        // dropped): a copy must carry every byte, the unused tail included (seeded `C10-18`: a
+        // hand-written Clone that copies width x height x bpp / 8 bytes, ignoring the row padding)
+        if !trace.is_empty() && rng.chance(1, 7) {
+            let copy = fb.clone_fb();
+            fb = copy;
+            trace.push("continue on clone()".to_string());
+        }
         let before = fb.bytes().to_vec();
         let mut any_inside = false;
         let color = C::from_u32(rng.next_u32() & mask);
